@@ -53,7 +53,7 @@ func C13(c *core.Ctx) {
 	ruleTypeForm(c)
 	// A-REFNAMES: both pointer prefixes, case-insensitively, name the same definition
 	ruleRefNames(c)
-	ruleFidelity(c, "pattern", "format", "title", "description", "$ref", "default", "minimum", "maximum", "multipleOf", "exclusiveMinimum", "exclusiveMaximum", "minLength", "maxLength", "minItems", "maxItems")
+	ruleFidelity(c, "pattern", "format", "title", "description", "$ref", "default", "minimum", "maximum", "multipleOf", "exclusiveMinimum", "exclusiveMaximum", "minLength", "maxLength", "minItems", "maxItems", "enum")
 	n, probs, notes := a.SchemaProducers()
 	c.Floor("B-LEGACY:decoder", n, 2, "functions that build a *Schema")
 	if len(probs) == 0 {
